@@ -593,6 +593,17 @@ def set_notebook_diff_targets(sources=True, outputs=True, attachments=True,
                               metadata=True, identifier=True, details=True):
     """Configure the notebook differs to include/ignore various changes."""
 
+    # Keys of a cell that should not be reported at all when ignored. This
+    # also covers the key itself being added or removed, and the id, which is
+    # an atomic value that no sub-differ is consulted for.
+    ignored_cell_keys = tuple(
+        key for key, include in (
+            ('execution_count', details),
+            ('id', identifier),
+            ('attachments', attachments),
+            ('outputs', outputs),
+        ) if not include)
+
     config = {
         '/cells/*/source': not sources,
         '/cells/*/outputs': not outputs,
@@ -601,7 +612,7 @@ def set_notebook_diff_targets(sources=True, outputs=True, attachments=True,
         '/cells/*/id': not identifier,
         '/cells/*/metadata': not metadata,
         '/cells/*/outputs/*/metadata': not metadata,
-        '/cells/*': False if details else ('execution_count',),
+        '/cells/*': ignored_cell_keys or False,
         '/cells/*/outputs/*': False if details else ('execution_count',),
     }
     set_notebook_diff_ignores(config)
